@@ -2,6 +2,8 @@
 //  (a) non-trivial key, absent, no hash collision: the accessor is empty -> guard_ptr::reclaim() on null -> crash
 //  (b) non-trivial key, absent, but a PRESENT key has the same hash: compare_key left the accessor pointing to the present key's
 //      node -> that node is retired while still linked -> use-after-free on a later lookup (run under ASan, or see the value change)
+//  (c) the same null dereference for an absent key in every other storage mode that has something to reclaim: `modes` runs
+//      <int, std::string>, <int, managed_ptr>, <std::string, managed_ptr> each in a child process and reports which ones crash
 // build: g++ -std=c++17 -g -fno-access-control -I /repo native_f13.cpp -pthread [-fsanitize=address]
 // exit 0: behaves as specified; 1: defect reproduced (b); crash (SIGSEGV): defect reproduced (a)
 #include <xenium/vyukov_hash_map.hpp>
@@ -13,8 +15,30 @@ struct const_hash { std::size_t operator()(const std::string&) const { return 7;
 static int live = 0;
 struct V { int x = 0; V() { ++live; } V(int x) : x(x) { ++live; } V(const V& o) : x(o.x) { ++live; } V(V&& o) noexcept : x(o.x) { ++live; } V& operator=(const V&) = default; ~V() { --live; x = -12345; } };
 using R = xenium::reclamation::epoch_based<>;
+#include <sys/wait.h>
+#include <unistd.h>
+struct mnode : R::enable_concurrent_ptr<mnode> { int v; explicit mnode(int v) : v(v) {} };
+template <class M, class K, class Val> static int child_erase_absent(const char* what, K present, K absent, Val v) {
+  fflush(stdout);
+  pid_t pid = fork();
+  if (pid == 0) { M m(8); m.emplace(present, v); bool r = m.erase(absent); _exit(r ? 3 : 0); }
+  int st = 0; waitpid(pid, &st, 0);
+  bool crashed = WIFSIGNALED(st);
+  printf("%-40s erase(absent): %s\n", what, crashed ? "CRASH (signal)" : (WEXITSTATUS(st) == 0 ? "returned false" : "returned true"));
+  return crashed || WEXITSTATUS(st) != 0;
+}
 int main(int argc, char** argv) {
   const char* mode = argc > 1 ? argv[1] : "collision";
+  if (!strcmp(mode, "modes")) {
+    int bad = 0;
+    bad += child_erase_absent<xenium::vyukov_hash_map<int, int, xenium::policy::reclaimer<R>>>("<int, int> (trivial/trivial)", 1, 2, 5);
+    bad += child_erase_absent<xenium::vyukov_hash_map<int, std::string, xenium::policy::reclaimer<R>>>("<int, std::string>", 1, 2, std::string("x"));
+    bad += child_erase_absent<xenium::vyukov_hash_map<std::string, int, xenium::policy::reclaimer<R>>>("<std::string, int>", std::string("a"), std::string("b"), 5);
+    bad += child_erase_absent<xenium::vyukov_hash_map<int, xenium::managed_ptr<mnode, R>, xenium::policy::reclaimer<R>>>("<int, managed_ptr>", 1, 2, new mnode(1));
+    bad += child_erase_absent<xenium::vyukov_hash_map<std::string, xenium::managed_ptr<mnode, R>, xenium::policy::reclaimer<R>>>("<std::string, managed_ptr>", std::string("a"), std::string("b"), new mnode(1));
+    printf("%d of 5 storage modes misbehave\n", bad);
+    return bad ? 1 : 0;
+  }
   if (!strcmp(mode, "absent")) {
     using M = xenium::vyukov_hash_map<std::string, std::string, xenium::policy::reclaimer<R>>;
     M m(8);
